@@ -147,6 +147,26 @@ def grid_shapes():
     return out
 
 
+def shape_is_wf(sh):
+    """does tx_desc(sh) describe a value the decoder accepts back?  (a version>=2, non-Null transaction whose FIRST input is a key
+    input with an empty ring is refused: "Input has no ring members")"""
+    if sh["version"] == 1 or not sh["in_kinds"] or sh["rct_type"] == 0:
+        return True
+    return not (sh["in_kinds"][0] == "key" and sh["ring"] == 0)
+
+
+def ring0_shapes():
+    """key inputs with EMPTY rings: legal for version 1, for RingCT type Null, and behind a coinbase first input; refused otherwise"""
+    out = []
+    for t in range(7):
+        for kinds in (["key"], ["key", "key"], ["gen", "key"], ["key", "gen"]):
+            out.append(dict(version=2, in_kinds=kinds, ring=0, out_tagged=[False, True], rct_type=t, n_proofs=1, lr=(1, 1)))
+    for kinds in (["key"], ["gen", "key"], ["key", "key", "key"]):
+        out.append(dict(version=1, in_kinds=kinds, ring=0, out_tagged=[True], rct_type=0))
+        out.append(dict(version=0, in_kinds=kinds, ring=0, out_tagged=[True], rct_type=5, n_proofs=1, lr=(0, 0)))
+    return out
+
+
 def header_desc(rng):
     return [str(interesting_u64(rng)), str(interesting_u64(rng)), str(interesting_u64(rng)), key(rng),
             str(rng.choice([0, 1, 2 ** 32 - 1, rng.getrandbits(32)]))]
